@@ -61,9 +61,44 @@ def check(P: Project, R: Report) -> None:
                 tags.add("AttributeError")
         return tags
 
+    # reply helpers: other methods of the class that return (envelope-or-None, session) for an id they are given
+    helpers = {}
+    for f in P.methods(ph).values():
+        if f is hm:
+            continue
+        idp = None
+        for r in walk_local(f.node):
+            if isinstance(r, ast.Return) and isinstance(r.value, ast.Tuple) and r.value.elts and isinstance(r.value.elts[0], ast.Call):
+                env = envelope_call(P, f, r.value.elts[0])
+                if env is not None and isinstance(env.get("id"), ast.Name) and env["id"].id in f.params():
+                    idp = env["id"].id
+        has_none = any(isinstance(r, ast.Return) and isinstance(r.value, ast.Tuple) and r.value.elts and isinstance(r.value.elts[0], ast.Constant) and r.value.elts[0].value is None for r in walk_local(f.node))
+        if idp is not None and has_none:
+            helpers[f.name] = (f, idp)
+    for hname, (hf, idp) in sorted(helpers.items()):
+        R.fn(hf.fq)
+        ha0, ho0 = run_paths(hf.node, fallible=False)
+        for st, node in ho0.ret:
+            first = node.value.elts[0] if isinstance(node.value, ast.Tuple) and node.value.elts else node.value
+            where = f"{hf.module.rel}:{node.lineno}"
+            if isinstance(first, ast.Constant) and first.value is None:
+                R.ob("R3", f"reply helper {hname}: no response only when the id is None", f"{idp} is None" in st.lits, where,
+                     f"returns no response under {sorted(l for l in st.lits if idp in l)}: a request whose id is falsy but legal (0 or '') is treated as a notification and gets no response")
+            else:
+                R.ob("R1", f"reply helper {hname}: envelope only with a non-null id", f"{idp} is not None" in st.lits or idp in st.lits, where, f"literals {sorted(st.lits)}")
+        R.ob("R3", f"reply helper {hname} cannot fall off the end", not ho0.normal, hf.where, "")
+
     sites = []
 
     def ev(call, st: PState, an: PathAnalysis):
+        nm0 = call_name(call)
+        if nm0.startswith("self.") and nm0[5:] in helpers:
+            hf, idp = helpers[nm0[5:]]
+            b = {p: a for p, a in zip([x for x in hf.positional_params() if x != "self"], call.args)}
+            b.update({k.arg: k.value for k in call.keywords if k.arg})
+            idt = subst_text(b[idp], st) if idp in b else "<none>"
+            code = try_fold(P, hm.module, b.get("code")) if b.get("code") is not None else None
+            return f"reply:{nm0[5:]}:{idt}:{code}"
         env = envelope_call(P, hm, call)
         if env is not None:
             idt = subst_text(env["id"], st) if env.get("id") is not None else "<none>"
@@ -81,7 +116,8 @@ def check(P: Project, R: Report) -> None:
     R.paths += len(out.ret) + len(out.exc) + len(out.normal)
 
     # ------------------------------------------------------------------ R1
-    R.need(sites, "anchor: handle_message builds no envelope")
+    delegated = any(e.startswith("reply:") for st, _n in out.ret for e in st.events)
+    R.need(sites or delegated, "anchor: handle_message builds no envelope and delegates to no reply helper")
     for call, st, env, idt, code in sites:
         in_except = any(call in list(walk_local(h)) for t in walk_local(hm.node) if isinstance(t, ast.Try) for h in t.handlers)
         key = f"{env['kind']} envelope code {code}" + (" (in except block)" if in_except else "")
@@ -114,6 +150,22 @@ def check(P: Project, R: Report) -> None:
         no_id = f"{ID} is None" in st.lits
         if is_list:
             R.ob("R3", "a batch list gets no single response", resp_t == "None", where, f"returns `{resp_t}`")
+            continue
+        replies = [e for e in st.events if e.startswith("reply:")]
+        if replies and isinstance(v, ast.Call) and call_name(v).startswith("self.") and call_name(v)[5:] in helpers:
+            # both kinds of message are decided inside the reply helper (checked above); the id handed to it must be the message's
+            R.ob("R3", "the reply helper is given the message's id", replies[-1].split(":")[2] == ID, where, f"{replies[-1]}", sample=f"R3 delegated: {replies[-1]}")
+            kinds.update({"notification", "request"})
+            code = replies[-1].split(":")[3]
+            in_except = any(v in list(walk_local(h)) for t in walk_local(hm.node) if isinstance(t, ast.Try) for h in t.handlers)
+            miss = any("handler" in l and l.startswith("not ") for l in st.lits) or any(l.startswith("not ") and "_handlers" in l for l in st.lits)
+            no_method = any(l.startswith("not getattr(") and "'method'" in l for l in st.lits)
+            if in_except:
+                R.ob("R4", "handler raised → -32603", code == "-32603", where, f"code {code}")
+            elif no_method:
+                R.ob("R4", "no method → -32600", code == "-32600", where, f"code {code}")
+            elif miss:
+                R.ob("R4", "unregistered method → -32601", code == "-32601", where, f"code {code}")
             continue
         if not has_id and not no_id:
             R.ob("R3", "every return knows whether the message has an id", False, where, f"return `{ast.unparse(node)[:60]}` on a path that never tested the id (literals {sorted(l[:50] for l in st.lits)})")
